@@ -270,6 +270,85 @@ pub fn check_planted<K: HKey>(base: &Image, m: &Model<K>, cfg: &Cfg, garbage: &[
     out
 }
 
+/// A put of an ORPHAN's content fails at each of its mutating calls in turn (EIO, shim); clean-up run afterwards by the
+/// same live `OrphanStats` must delete the orphan iff the failed put left it unreferenced (nothing is in flight any more),
+/// and must keep it iff the put got far enough to reference it.
+pub fn fault_then_cleanup(res: &mut WorkerResult) -> Vec<Violation> {
+    use crate::shim::{self, Phase};
+    use std::sync::Arc;
+    use std::sync::atomic::{AtomicU64, Ordering};
+    let mut vs = Vec::new();
+    let cfg = Cfg { n: 2, async_mode: false };
+    let base = {
+        let dir = util::fresh_dir("fcsrc");
+        let cas = real::open_cas::<String>(&dir, &cfg.config()).expect("open");
+        real::put_chunks(&cas, "a".to_string(), &[b"xx"], true).expect("put");
+        drop(cas);
+        let mut im = Image::load(&dir);
+        util::rm_rf(&dir);
+        let y = b"yyy".to_vec();
+        let p = format!("cas/{}", ondisk::path_of_hash(&b3(&y)));
+        let parts: Vec<&str> = p.split('/').collect();
+        for i in 1..parts.len() {
+            im.dirs.insert(parts[..i].join("/"));
+        }
+        im.files.insert(p, y);
+        im
+    };
+    let y_rel = ondisk::path_of_hash(&b3(b"yyy"));
+    let mut k = 0u64;
+    let mut total = u64::MAX;
+    while k <= total.min(80) {
+        let dir = util::fresh_dir("fc");
+        base.materialize(&dir);
+        let Ok((cas, Some(stats))) = real::open_recover::<String>(&dir, &cfg.config()) else {
+            vs.push(Violation::new(&["C08"], "fault-cleanup-setup", "open_with_recover failed".into()));
+            break;
+        };
+        let cnt = Arc::new(AtomicU64::new(0));
+        let c2 = cnt.clone();
+        let kk = k;
+        shim::arm(&dir, Arc::new(move |ev, ph| {
+            if let Phase::Pre = ph {
+                if ev.mutating && c2.fetch_add(1, Ordering::SeqCst) + 1 == kk {
+                    return libc::EIO;
+                }
+            }
+            0
+        }));
+        shim::participate(true);
+        let r = real::put_chunks(&cas, "b".to_string(), &[b"yyy"], true);
+        shim::participate(false);
+        shim::disarm();
+        if k == 0 {
+            total = cnt.load(Ordering::SeqCst);
+        }
+        res.count("cases", 1);
+        let referenced = cas.read_index_state().contains_key(&"b".to_string());
+        let rr = stats.delete_orphans();
+        let still = dir.join("cas").join(&y_rel).exists();
+        let desc = format!("orphan Y; put b=Y with mutating call #{k} failing -> {:?}; key b {}; delete_orphans -> {:?}; blob {}", r.as_ref().map(|_| ()).map_err(|e| e.chars().take(60).collect::<String>()), if referenced { "present" } else { "absent" }, rr.as_ref().map(|x| (x.orphans_deleted, x.orphans_skipped)).map_err(|_| ()), if still { "still there" } else { "gone" });
+        if referenced && !still {
+            let mut v = Violation::new(&["C08"], "cleanup-removed-referenced-blob", desc.clone());
+            v.replay = json!({"engine": "plant", "kind": "fault-then-cleanup"});
+            vs.push(v);
+        }
+        if !referenced && still {
+            let mut v = Violation::new(&["C08"], "cleanup-after-failed-put-incomplete", format!("{desc}: the orphan is unreferenced and no commit is in flight, yet clean-up did not remove it"));
+            v.replay = json!({"engine": "plant", "kind": "fault-then-cleanup"});
+            vs.push(v);
+        }
+        drop(stats);
+        drop(cas);
+        util::rm_rf(&dir);
+        if vs.len() > 2 {
+            break;
+        }
+        k += 1;
+    }
+    vs
+}
+
 pub fn case_json<K: HKey>(cfg: &Cfg, opsq: &[Op], garbage: &[&str], verify: bool) -> Value {
     json!({"engine": "plant", "key": K::NAME, "cfg": cfg, "ops": opsq, "garbage": garbage, "verify": verify, "text": ops::show_seq::<K>(opsq)})
 }
@@ -334,6 +413,12 @@ pub fn run(tier: &str, slice: (u64, u64), seed: u64) -> WorkerResult {
             }
         }
     }
+    if slice.0 == slice.1 - 1 && crate::shim::present() {
+        for v in fault_then_cleanup(&mut res) {
+            res.violate(v);
+        }
+        res.completed.push("a put of an orphan's content failing at each of its mutating calls, then delete_orphans by the live OrphanStats: the orphan is removed iff it stayed unreferenced".into());
+    }
     if slice.0 == 0 {
         res.completed.push(format!("every closed store of every history of depth <= {depth} over {} symbols (N in {{10000,2}}) x every subset of size <= {max} of the {}-item garbage menu ({} subsets) x verify_blob_integrity on/off: scan sets, delete_orphans, delete_orphan, quarantine_orphans", alpha.len(), MENU.len(), subs.len()));
     }
@@ -341,6 +426,10 @@ pub fn run(tier: &str, slice: (u64, u64), seed: u64) -> WorkerResult {
 }
 
 pub fn replay(case: &Value) -> Vec<Violation> {
+    if case["kind"].as_str() == Some("fault-then-cleanup") {
+        let mut res = WorkerResult::new("plant");
+        return fault_then_cleanup(&mut res);
+    }
     let cfg: Cfg = serde_json::from_value(case["cfg"].clone()).expect("cfg");
     let opsq: Vec<Op> = serde_json::from_value(case["ops"].clone()).expect("ops");
     let g: Vec<String> = serde_json::from_value(case["garbage"].clone()).expect("garbage");
